@@ -165,6 +165,10 @@ def r2_tallies(repo, report):
                 f = r.valuation.get("truthy:MATCH.front_match")
                 b = r.valuation.get("truthy:MATCH.back_match")
                 we, wa = [], []
+                if f is None or b is None:
+                    # a path that never asks whether one of the parts was found cannot have counted it
+                    bad.append((f"the {'5-prime' if f is None else '3-prime'} part is not looked at when the other part is {'missing' if (b if f is None else f) is False else 'present'}", r.describe()["valuation"]))
+                    continue
                 if f:
                     we.append(("self.front.errors[MATCH.front_match.removed_sequence_length()][MATCH.front_match.errors]", "+1"))
                 if b:
